@@ -37,6 +37,7 @@ func main() {
 		vlib.Group{Name: "zero", Gen: genZero},
 		vlib.Group{Name: "empty", Gen: genEmpty},
 		vlib.Group{Name: "large", Gen: genLarge},
+		vlib.Group{Name: "rawlong", Gen: genRawLong},
 	)
 	vlib.Main("C04", groups...)
 }
